@@ -466,7 +466,27 @@ func (c *StreamCfg) UnknownRecord(t *rapid.T, b []byte, md protoreflect.MessageD
 }
 
 func (c *StreamCfg) unknownRecord(t *rapid.T, b []byte, md protoreflect.MessageDescriptor, gdepth int) []byte {
-	return c.unknownRecordNum(t, b, unknownNumber(t, md), gdepth)
+	num := unknownNumber(t, md)
+	// Padded tags on unknown records only where every implementation keeps the
+	// raw bytes: nodes that are not google.protobuf.* messages (protobuf-go's
+	// table decoder, used for the well-known types, re-encodes the tag).
+	if !c.Canonical && gdepth == 0 && !strings.HasPrefix(string(md.FullName()), "google.protobuf.") && rapid.IntRange(0, 9).Draw(t, "padunktag") == 0 {
+		typ := protowire.Type(rapid.SampledFrom([]int{0, 1, 2, 5}).Draw(t, "padunktype"))
+		v := protowire.EncodeTag(num, typ)
+		c.label("unknown-record-with-padded-tag")
+		b = appendVarintPadded(b, v, protowire.SizeVarint(v)+rapid.IntRange(1, 2).Draw(t, "padunklen"))
+		switch typ {
+		case protowire.VarintType:
+			return c.varint(t, b, genU64.Draw(t, "unkv"))
+		case protowire.Fixed32Type:
+			return protowire.AppendFixed32(b, rapid.Uint32().Draw(t, "unk32"))
+		case protowire.Fixed64Type:
+			return protowire.AppendFixed64(b, rapid.Uint64().Draw(t, "unk64"))
+		default:
+			return c.lenPrefixed(t, b, genBytes.Draw(t, "unkb"))
+		}
+	}
+	return c.unknownRecordNum(t, b, num, gdepth)
 }
 
 // Tags of unknown records are always minimal: protobuf-go's table-driven
